@@ -461,6 +461,11 @@ def run(ctx: Context) -> None:
                     and cfg.dominates(n, st_call):
                 guard_ok = True
         ctx.check('R11.4', guard_ok or ok_refuse, "a second attachment is refused: the bind is dominated by `if state.is_bound(): raise`, or bind_convention (its only way in) refuses itself", bind, bcall)
+        # ... and bind has no quiet way out: every exit that is not an error has gone through bind_convention
+        # (a bind that returns silently when "the same kind of" convention is bound accepts a second object while .ems keeps answering with the first)
+        quiet = [n for k, n in cfg.exits() if k in ('return', 'fall') and n is not st_call and not cfg.dominates(st_call, n)]
+        ctx.check('R11.4', not quiet, "every exit of Convention.bind that is not a refusal has bound this convention", bind, quiet[0] if quiet else bcall,
+                  construct=f"exits of bind that bypass bind_convention: {len(quiet)}")
         ctx.check('R11.4', len(bcall.args) == 1 and flow.canon(bcall.args[0]) == ('param', 'self'), "the convention bound is this instance", bind, bcall)
         sv = flow.resolve(bcall.func.value)
         ok_state = (isinstance(sv, ast.Call) and norm_text(sv.func) == 'State.get' and len(sv.args) == 1
